@@ -158,6 +158,8 @@ func evalExecBlock(vm *r.VM, execBlock *syntax.ExecBlock, params []r.Element) (r
 	}
 
 	for idx, param := range execBlock.InputBlock {
+		// (a name that cannot be bound is a fault of the 输入 line, not of the header)
+		vm.SetCurrentLine(param.GetCurrentLine())
 		idTag, err := MatchIDName(param)
 		if err != nil {
 			return nil, err
